@@ -139,7 +139,17 @@ pub fn hook_validation_address(mint: &Pubkey) -> Pubkey {
 /// Token-2022 mint with optional TransferFeeConfig and optional TransferHook (simulator's hook stub, empty extra-account list)
 #[allow(clippy::too_many_arguments)]
 pub fn create_mint_2022_ext(l: &mut Ledger, payer: &Pubkey, mint: &Pubkey, authority: &Pubkey, decimals: u8, fee: Option<(u16, u64)>, freeze: Option<&Pubkey>, hook: bool) {
+    create_mint_2022_full(l, payer, mint, authority, decimals, fee, freeze, hook, 0)
+}
+
+/// `meta_ptr`: 0 = none, 1 = a MetadataPointer extension initialised BEFORE the others (so it comes first in the
+/// account's extension list although its type number is the highest), 2 = initialised after the others
+#[allow(clippy::too_many_arguments)]
+pub fn create_mint_2022_full(l: &mut Ledger, payer: &Pubkey, mint: &Pubkey, authority: &Pubkey, decimals: u8, fee: Option<(u16, u64)>, freeze: Option<&Pubkey>, hook: bool, meta_ptr: u8) {
     let mut exts = Vec::new();
+    if meta_ptr != 0 {
+        exts.push(ExtensionType::MetadataPointer);
+    }
     if fee.is_some() {
         exts.push(ExtensionType::TransferFeeConfig);
     }
@@ -148,6 +158,10 @@ pub fn create_mint_2022_ext(l: &mut Ledger, payer: &Pubkey, mint: &Pubkey, autho
     }
     let len = ExtensionType::try_calculate_account_len::<spl_token_2022::state::Mint>(&exts).unwrap();
     let mut ixs = vec![ix::sys_create_account(payer, mint, rent_min(len), len as u64, &ix::tok22())];
+    let meta_ix = || ix::from_sol(spl_token_2022::extension::metadata_pointer::instruction::initialize(&ix::tok22(), mint, Some(*authority), Some(*mint)).unwrap());
+    if meta_ptr == 1 {
+        ixs.push(meta_ix());
+    }
     if let Some((bps, max)) = fee {
         ixs.push(ix::from_sol(
             spl_token_2022::extension::transfer_fee::instruction::initialize_transfer_fee_config(&ix::tok22(), mint, Some(authority), Some(authority), bps, max).unwrap(),
@@ -157,6 +171,9 @@ pub fn create_mint_2022_ext(l: &mut Ledger, payer: &Pubkey, mint: &Pubkey, autho
         ixs.push(ix::from_sol(
             spl_token_2022::extension::transfer_hook::instruction::initialize(&ix::tok22(), mint, Some(*authority), Some(rt::hook_program_id())).unwrap(),
         ));
+    }
+    if meta_ptr == 2 {
+        ixs.push(meta_ix());
     }
     ixs.push(ix::from_sol(spl_token_2022::instruction::initialize_mint2(&ix::tok22(), mint, authority, freeze, decimals).unwrap()));
     must(l, ixs, "create_mint_2022");
